@@ -21,7 +21,7 @@ AXIOMS = {
     "sin": lambda t, a: [t >= -1, t <= 1],
     "cos": lambda t, a: [t >= -1, t <= 1],
     "tanh": lambda t, a: [t > -1, t < 1, z3.Implies(a[0] == 0, t == 0), z3.Implies(a[0] > 0, t > 0), z3.Implies(a[0] < 0, t < 0)],
-    "logistic": lambda t, a: [t > 0, t < 1, z3.Implies(a[0] == 0, t * 2 == 1)],
+    "logistic": lambda t, a: [t > 0, t < 1, z3.Implies(a[0] == 0, t * 2 == 1), z3.Implies(a[0] > 0, t * 2 > 1), z3.Implies(a[0] < 0, t * 2 < 1)],
     "log": lambda t, a: [z3.Implies(a[0] == 1, t == 0), z3.Implies(z3.And(a[0] > 0, a[0] < 1), t < 0), z3.Implies(a[0] > 1, t > 0)],
     "log1p": lambda t, a: [z3.Implies(a[0] == 0, t == 0), z3.Implies(a[0] > 0, t > 0)],
     "softplus": lambda t, a: [t > 0],
